@@ -266,8 +266,12 @@ def orchestrate(pid, tier, seed, replay_path=None):
             print("VIOLATION property=%s replay=%s" % (pid, path))
         return 1
     if inconclusive:
-        for r in inconclusive[:10]:
-            print("INCONCLUSIVE property=%s reason=%s" % (pid, r[:1200]))
+        shown = []
+        for r in inconclusive:
+            if r[-300:] not in shown:
+                shown.append(r[-300:])
+                if len(shown) <= 6:
+                    print("INCONCLUSIVE property=%s reason=%s" % (pid, r[:1500]))
         return 2
     print("HELD property=%s on everything explored" % pid)
     return 0
